@@ -426,7 +426,7 @@ func init() {
 				simple("seed-trunc", g.nc, g.body[:cut], cut == len(g.body))
 			}
 		}
-		for i := 0; c.count["V:tmglyflazy.simple"] < budget; i++ {
+		for i := 0; c.count["V:tmglyflazy.simple"] < budget && i < 20*budget+1000 && timeouts < maxTimeouts; i++ {
 			switch i % 8 {
 			case 0, 1, 2:
 				nc, enc := totalGlyflazyBuild(c, r)
@@ -518,7 +518,7 @@ func init() {
 				comp("seed-trunc", g.body[:cut], cut == len(g.body))
 			}
 		}
-		for i := 0; c.count["V:tmglyflazy.comp"] < budget; i++ {
+		for i := 0; c.count["V:tmglyflazy.comp"] < budget && i < 20*budget+1000 && timeouts < maxTimeouts; i++ {
 			switch i % 6 {
 			case 0, 1:
 				comp("built", totalGlyflazyComp(c, r), true)
